@@ -209,21 +209,24 @@ Section Geom.
   (* ------------------------------------------------------------------ *)
   (* PackedState: check_intersection and score                           *)
 
-  (* the state as the checks see it: symmetry table, site, cell, shape; derived scalar inputs:
+  (* the state as the checks see it: symmetry table, the occupied sites (the command line occupies one; the
+     library and a file may occupy several, all of the same Wyckoff position), cell, shape; derived scalar inputs:
      enclosing radius, shape area and the shell count are VALUES computed by the caller's oracle *)
   Record pstate := mkPstate {
     p_syms : list tf;
-    p_site : site;
+    p_sites : list site;
     p_cell : cell;
     p_shape : shape;
     p_radius : T;        (* shape.enclosing_radius() *)
     p_area : T;          (* shape.area() *)
   }.
 
-  Definition relative_positions (st : pstate) : list tf := positions (p_syms st) (p_site st).
+  (* occupied_sites.iter().flat_map(OccupiedSite::positions) *)
+  Definition relative_positions (st : pstate) : list tf := flat_map (positions (p_syms st)) (p_sites st).
   Definition cartesian_positions (st : pstate) : list tf :=
     map (to_cartesian_isometry (p_cell st)) (relative_positions st).
-  Definition total_shapes (st : pstate) : Z := Z.of_nat (length (p_syms st)).
+  (* the sum of the sites' multiplicities *)
+  Definition total_shapes (st : pstate) : Z := Z.of_nat (length (p_sites st) * length (p_syms st)).
 
   (* more shapes than fit in the cell area certainly overlap *)
   Definition density_precheck (st : pstate) : bool :=
@@ -298,12 +301,12 @@ Section Geom.
 
   Record ljstate := mkLjstate {
     l_syms : list tf;
-    l_site : site;
+    l_sites : list site;
     l_cell : cell;
     l_shape : ljshape;
   }.
 
-  Definition lj_relative (st : ljstate) : list tf := positions (l_syms st) (l_site st).
+  Definition lj_relative (st : ljstate) : list tf := flat_map (positions (l_syms st)) (l_sites st).
   Definition lj_cartesian (st : ljstate) : list tf :=
     map (to_cartesian_isometry (l_cell st)) (lj_relative st).
 
@@ -320,7 +323,7 @@ Section Geom.
       shapes s1.
 
   Definition lj_score (st : ljstate) : option T :=
-    Some (- lj_sum st / nofZ (Z.of_nat (length (l_syms st)))).
+    Some (- lj_sum st / nofZ (Z.of_nat (length (l_sites st) * length (l_syms st)))).
 
   (* ------------------------------------------------------------------ *)
   (* the shape constructors (src/shape/*.rs); fsin / fcos are libm's sin / cos *)
